@@ -149,7 +149,9 @@ pub fn check(a: Adapter, src: SgrState) -> Result<(), (String, String)> {
 pub fn check_syntect(r: u8, g: u8, b: u8, r2: u8, g2: u8, b2: u8, font: u8) -> Result<(), (String, String)> {
     use syntect::highlighting::{Color, FontStyle, Style};
     let fs = FontStyle::from_bits_truncate(font);
-    let s = Style { foreground: Color { r, g, b, a: 0xff }, background: Color { r: r2, g: g2, b: b2, a: 0x80 }, font_style: fs };
+    // alpha is not part of the statement ("keeps the RGB colours"): vary it, including 0, so that a dependence shows
+    let alpha = [0xffu8, 0x80, 0x00, 0x01, r ^ b2];
+    let s = Style { foreground: Color { r, g, b, a: alpha[(r as usize + font as usize) % 5] }, background: Color { r: r2, g: g2, b: b2, a: alpha[(g as usize + b as usize) % 5] }, font_style: fs };
     let got = vcore::adapt::state_of(anstyle_syntect::to_anstyle(s));
     let mut f = 0u16;
     if fs.contains(FontStyle::BOLD) {
